@@ -48,7 +48,7 @@ pub fn judge(dir: &Path, sc: &Scenario, obs: &mut Obs) -> Judge {
     obs.class_if(sc.ws >= 65534, "ws>=65534");
     obs.class_if(fa.crossed_wrap, "crossed-wrap");
     for f in &findings {
-        if f.pred == "S1" || f.pred == "S2" {
+        if f.pred == "S1" || f.pred == "S2" || f.pred == "S11" {
             viol!(format!("sender-{}", f.pred), "{} | scenario blk={} ws={} len={} handshake={}", f.detail, sc.blk, sc.ws, sc.file_len, sc.handshake);
         }
     }
@@ -64,7 +64,7 @@ pub fn judge(dir: &Path, sc: &Scenario, obs: &mut Obs) -> Judge {
 
 pub fn run(ctx: &Ctx) {
     sim::init();
-    ctx.set_rule("the real Worker::send_file under a simulated socket: blksize 8..65464 x windowsize 1..65535 x file sizes around block/window boundaries x with/without OACK handshake; peer = conformant model client behind a fault network (<=8 drop/dup/swap/late fates over the first 40 datagrams of either direction) and/or an adversarial script (<=30 events: full/partial/duplicate/stale/future/raw ACKs, delays, lost ACKs, ERROR, garbage, OACK, stray DATA), then honest completion or silence. Oracle: every emitted DATA carries exactly its slice of the file (S1), no block beyond the final one (S2), the model client's reassembled copy is byte-identical or incomplete. Non-trivial = >=2 blocks and (a fault hit, a scripted event was used, or non-default blksize/windowsize); distinct = distinct (scenario, trace shape).");
+    ctx.set_rule("the real Worker::send_file under a simulated socket: blksize 8..65464 x windowsize 1..65535 x file sizes around block/window boundaries x with/without OACK handshake; peer = conformant model client behind a fault network (<=8 drop/dup/swap/late fates over the first 40 datagrams of either direction) and/or an adversarial script (<=30 events: full/partial/duplicate/stale/future/raw ACKs, delays, lost ACKs, ERROR, garbage, OACK, stray DATA), then honest completion or silence. Oracle: every emitted DATA carries exactly its slice of the file (S1), no block beyond the final one (S2), a transfer that ends with everything acknowledged has sent its short final block (S11), the model client's reassembled copy is byte-identical or incomplete. Non-trivial = >=2 blocks and (a fault hit, a scripted event was used, or non-default blksize/windowsize); distinct = distinct (scenario, trace shape).");
     ctx.assume("lying acknowledgements are only generated for transfers without block-number wrap-around (16-bit aliasing is undecidable for any implementation)");
     ctx.assume("the virtual clock hook (cfg rs_tftpd_verif) replaces Instant inside send_file only");
     let dirs = DirPool::new(ctx, "c01");
